@@ -298,6 +298,18 @@ def ep_pkt(p, ver, vary, npub):
         return {"t": "unsubscribe", "id": p["id"]}
     if k == "ping":
         return {"t": "pingreq"}
+    if k in ("puback", "pubrec", "pubcomp", "suback", "unsuback"):
+        return {"t": k, "id": p["id"]}
+    if k == "connect":
+        return {"t": "connect", "ka": 0}
+    if k == "connack":
+        return {"t": "connack", "rc": 0}
+    if k in ("pingresp", "auth"):
+        return dict({"t": k}, **({"rc": 0} if k == "auth" else {}))
+    if k == "disc":
+        return {"t": "disconnect"}
+    if k == "discsei":
+        return {"t": "disconnect", "rc": 4, "sei": 10}
     raise ValueError(k)
 
 
@@ -506,8 +518,18 @@ def c16_decode_for(ver, role, subset=None):
     return dec
 
 
+def c16_model_configs(tier):
+    """every sequence of packets of ANY type (18 / 20 kinds incl. the ones the role must not receive) against armed
+    and gated handlers, explored on the implementation-shaped model, replayed, validated event by event"""
+    T, F = "TRUE", "FALSE"
+    q = 600 if tier == "quick" else 100000
+    return [ep_config(f"m_v{ver}{role[0]}_any", quota=q, ver=ver, role=role, ids="Ids1", n=2 if tier == "quick" else 3,
+                      kinds="KAny", outs="OErr", imm=T, gp=T if role == "server" else F)
+            for ver in (3, 5) for role in ("server", "client")]
+
+
 def c16_configs(tier):
-    cs = []
+    cs = c16_model_configs(tier)
     for ver in (3, 5):
         nt = len(c16_templates(ver))
         for role in ("server", "client"):
